@@ -14,7 +14,7 @@ CLAIMED = {
              note='Assumes min_len <= max_len for symbolic bounds. Not decided: greediness on inputs, element values.', ref='4 C03'),
  'C04': dict(technique='module-level partial evaluation of the translator on route grammars with ignore declarations + object-graph rule (every literal flagged) + request-order rule on the emitted start function + call-graph who-may-call rule + E1 literal/Skip skeleton specs; routes: named/anonymous/several ignore rules, lookaheads, class start (also with a leading constant member), sub-grammars with and without a start of their own',
              text='Structural half: every literal (also in ignored rules, template and keyword arguments, class members) skips after a match and only literals do; the start function first skips; the synthetic rule is Skip over exactly the ignored rules; the skip request is issued on the success path with the literal end; nobody else may skip.',
-             note='Not decided: the second sentence of the property (lengthening an ignorable run changes no value). Known findings: inherited anonymous / combined ignore declarations.', ref='4 C04'),
+             note='Not decided: the second sentence of the property (lengthening an ignorable run changes no value). Known finding: combined ignore declarations (base and sub-grammar both declare patterns).', ref='4 C04'),
  'C05': dict(technique='E1 provenance rule on binders (Let, Seq names) + local-store rule + structured liveness over skeletons (scratch locals live across a sub-expression are numbered by the builder) + route rules on shadowing, nested let scope and argument captures (free variables of skeleton objects vs. emitted _ParseFunction constructions) + marker-text rule for description text emitted verbatim (free-variable protocol) + flag soundness of Where/Apply + generated class table agreement',
              text='Bound names hold the value of their expression at every later child start, are plain locals of the rule frame, and are emitted as locals even when a rule has the same name; Where/Apply value flow; class field tables/ctor args/member kinds agree.',
              note='Not decided: what user Python computes. Known findings: inline Python, repeat counts and class fields are invisible to freevars().', ref='4 C05'),
@@ -38,7 +38,7 @@ CLAIMED = {
              note='Not decided: equality of results between variants on inputs.', ref='4 C11'),
  'C13': dict(technique='emission of base / sub-grammar / third-level route modules + cross-module wiring rules (attributes read through _ctx by inherited code vs. assigned on the derived context; _super_ctx reads vs. parent context), lexical-super and late-binding rules (incl. context received as a parameter by every rule function and helper), inherited start and leading skip, parent objects only read (context and imported rule objects), path rule on _install_module',
              text='Non-local references are late-bound through _ctx (also rules passed as arguments), super is rooted at the module-global _super_ctx, contexts are completely wired at every level, the parent is only read, named modules are registered on every path.',
-             note='Known findings: anonymous ignore inheritance; combined ignore declarations.', ref='4 C13'),
+             note='Known finding: combined ignore declarations (anonymous ignore inheritance was repaired by repo fix 2ace552).', ref='4 C13'),
  'C14': dict(technique='symbolic path enumeration of ParsedObject.__eq__/__hash__/_asdict/_replace/_hash + table agreement rules on node classes and generated classes (path-based stores, repr rendered parts) + __getattr__ copy-safety rule',
              text='Equality is class-test-then-fields over exactly _fields, hashing covers the same fields through a container-aware helper, neither reads metadata or identity; _replace constructs through the class; field tables, constructors and repr agree; copy/pickle cannot recurse in __getattr__.',
              note='Not decided: == being an equivalence for arbitrary user field values.', ref='4 C14'),
@@ -61,6 +61,24 @@ CLAIMED = {
              text='Every generated identifier that can meet a user identifier is enumerated from the source; the instances existing today are recorded as known findings, any new one is a violation.',
              note='All current instances are genuine collisions (probes under findings/probes).', ref='4 C20'),
 }
+
+# rules added by the later seeding rounds (appended to the technique text)
+EXTRA = {
+ 'C02': '; evaluation of the emitted postfix reduction test for every stack depth / row relation; OperatorTable.create partially evaluated on every sequence of row kinds (levels strictly increase)',
+ 'C03': '; atomicity rule on compound bound texts',
+ 'C05': '; marker-based free-variable protocol on skeletons; E1 rules on the List configurations with name bounds; inline Python evaluated in place (route inline-python); memo per call',
+ 'C06': '; wrapper-owner rule; parameter-order rule; keyword arguments travel by name in call objects of named grammars',
+ 'C07': '; every path that starts a generator has consulted the memo; driver representation with the active frame outside the stack',
+ 'C08': '; driver coordinates not rebound; memo per call; the value leaves _finalize_parse_info only after the conversion walk',
+ 'C09': '; position functions read no module-level container and carry no decorator',
+ 'C10': '; position functions read no module-level container and carry no decorator; second line-map representation (index of the last line feed)',
+ 'C13': '; import-shadow rule; synthetic ignore rule reaches named patterns by late-bound reference (anonymous ones may be matched in place)',
+ 'C16': '; identity-keyed table rule, single-pass rule, object-returned-without-callbacks rule, metadata goes onto a copy of the callback result (never into the object a callback returned)',
+ 'C17': '; binders and never-failing nodes at every depth of the split threshold',
+ 'C18': '; namespace mutation rule (vars()/globals()/__dict__); inline Python of the grammar evaluated inside rule functions, never hoisted to module level (route inline-python)',
+ 'C19': '; zero and name bounds in repeat mapping',
+ 'C20': '; keyword-prefix rule on the metagrammar; derived-namespace rule on invented module-level names',
+}
 NA = {
  'C12': 'Bootstrap fixed point compares outputs of executing the generator across generations; any static surrogate is either a text comparison that fires on harmless edits or a re-execution of the generator (DESIGN.md section 6).',
 }
@@ -79,7 +97,7 @@ for pid in ALL:
             'engine': 'sva',
             'level_claimed': {'category': 'other', 'text': c['text'], 'design_ref': c['ref']},
             'level_note': c['note'],
-            'technique': c['technique'],
+            'technique': c['technique'] + EXTRA.get(pid, ''),
         })
 na = [{'property_id': p, 'reason': NA.get(p, PENDING)} for p in ALL if p not in CLAIMED]
 m = {
